@@ -39,6 +39,12 @@ def step (_s : Unit) (ts : List String) : Unit × String :=
           optNat (blockReward { number := 0, base, rem, prevHR := 0, start, length := len, compact := 0 } n)
         | "sec", [start, len, sec, n] =>
           optNat (secondaryBlockIssuance { number := 0, base := 0, rem := 0, prevHR := 0, start, length := len, compact := 0 } n sec)
+        | "hv", [c, d, known, pn, hn, pe, he, _nonce] =>
+          (match headerVerify c d (known != 0) pn hn pe he with
+           | none => "fail"
+           | some .ok => "ok" | some .invalidNonce => "invalid-nonce" | some .unknownParent => "unknown-parent"
+           | some .numberMismatch => "number" | some .epochMalformed => "epoch-malformed"
+           | some .epochNonContinuous => "epoch-noncontinuous")
         | "nwf", [number, start, len, n] =>
           optNat (numberWithFraction { number, base := 0, rem := 0, prevHR := 0, start, length := len, compact := 0 } n)
         | "prim", [initial, halving, n] => optNat (primaryEpochReward { T := 0, initial, halving } n)
@@ -47,6 +53,15 @@ def step (_s : Unit) (ts : List String) : Unit × String :=
               { number, base, rem, prevHR, start, length := len, compact := hc } hn hc uncles dur with
            | none => "fail"
            | some o => s!"{o.number} {o.base} {o.rem} {hx o.prevHR} {o.start} {o.length} {o.compact}")
+        | "nextperm", [T, initial, halving, number, base, rem, prevHR, start, len, hn, hc] =>
+          (match nextEpochExtPermanent { T, initial, halving }
+              { number, base, rem, prevHR, start, length := len, compact := hc } hn with
+           | none => "fail"
+           | some o => s!"{o.number} {o.base} {o.rem} {hx o.prevHR} {o.start} {o.length} {o.compact}")
+        | "genesis", [R, c, L, T, on, od] =>
+          (match genesisEpochExt R c L T on od with
+           | none => "fail"
+           | some o => s!"{o.base} {o.rem} {hx o.prevHR} {o.length} {o.compact}")
         | _, _ => "bad-op"
     | _ => "bad-op"
   ((), r)
